@@ -219,7 +219,11 @@ static std::string pred_eig(long n, const Mat& H0)
         for (long j = 0; j < n; j++) for (long i = j + 2; i < n; i++) quasi = quasi && T(i, j) == S(0);
         for (long i = 0; i + 2 < n; i++) quasi = quasi && !(T(i + 1, i) != S(0) && T(i + 2, i + 1) != S(0));
         bool standard = true;      // every remaining 2x2 block carries a complex pair: ((a - d)/2)^2 + b c < 0
-        for (long i = 0; i + 1 < n; i++) if (T(i + 1, i) != S(0)) { S p = S(0.5) * (T(i, i) - T(i + 1, i + 1)); standard = standard && p * p + T(i + 1, i) * T(i, i + 1) < S(0); }
+        for (long i = 0; i + 1 < n; i++) if (T(i + 1, i) != S(0))
+        {   // negative discriminant, up to the rounding of the discriminant itself (a block that is a tie to working precision may legitimately stay)
+            S p = S(0.5) * (T(i, i) - T(i + 1, i + 1)), bc = T(i + 1, i) * T(i, i + 1), disc = p * p + bc;
+            standard = standard && (disc < S(0) || disc <= S(16) * eps * (p * p + std::abs(bc)));
+        }
         o << "S " << (double) ((U * T * U.transpose() - H).norm() / (n * eps * nh)) << ' ' << (double) ((U.transpose() * U - M::Identity(n, n)).norm() / (n * eps)) << ' '
           << (quasi ? 1 : 0) << ' ' << (standard ? 1 : 0) << ' ';
     }
@@ -243,9 +247,11 @@ static std::string pred_eig(long n, const Mat& H0)
             if (ev[j].imag() > S(0)) { conv = conv && j + 1 < n && ev[j + 1] == std::conj(ev[j]) && ev[j + 1].imag() < S(0); j++; }
             else conv = false;
         }
-        o << "E " << (double) (worst / (n * eps * nh)) << ' ' << (double) (nrm / (n * eps)) << ' ' << (conv ? 1 : 0) << ' ' << (finite ? 1 : 0);
+        // smallest separation between two computed eigenvalues relative to |H| (near-defective pairs)
+        S sep = S(1); for (long a = 0; a < n; a++) for (long b = a + 1; b < n; b++) sep = std::min(sep, (S) (std::abs(ev[a] - ev[b]) / nh));
+        o << "E " << (double) (worst / (n * eps * nh)) << ' ' << (double) (nrm / (n * eps)) << ' ' << (conv ? 1 : 0) << ' ' << (finite ? 1 : 0) << ' ' << (double) sep;
     }
-    catch (const std::runtime_error&) { o << "E throw 0 1 1"; }
+    catch (const std::runtime_error&) { o << "E throw 0 1 1 1"; }
     return o.str();
 }
 
